@@ -67,8 +67,58 @@ def run(run):
             elif k == "alloc":
                 if int(ips.find_allowed_size(c["nx"])) != c["size"]:
                     run.violation("find_allowed_size", dict(nx=c["nx"], got=int(ips.find_allowed_size(c["nx"])), expected=c["size"]), c)
+    # ---- structural pieces of the Karhunen-Loeve pipeline (spec/GrowthKL.tla)
+    from aotools.functions import karhunenLoeve as kl
+    r2 = run.tlc("GrowthKL", "GrowthKL.cfg", require_actions=("HelmertStep", "AziStep", "RebinStep", "RadiiStep"), timeout=1200)
+    if r2.violated:
+        raise core.MachineryError("GrowthKL.tla violates its own invariant %s" % r2.violated)
+    with np.errstate(all="ignore"):
+        for c in r2.printed:
+            k = c["kind"]
+            kinds[k] = kinds.get(k, 0) + 1
+            run.traces += 1
+            if kinds[k] == 3:
+                run.sample(c, limit=8)
+            if k == "helmert":
+                nr = c["nr"]
+                got = np.asarray(kl.piston_orth(nr), float)
+                want = np.array(c["coef"], float) / np.sqrt(np.array(c["den"], float))[None, :]
+                if got.shape != want.shape or not np.allclose(got, want, rtol=0, atol=1e-14) or not np.allclose(got.T.dot(got), np.eye(nr), rtol=0, atol=1e-13):
+                    run.violation("piston_orth:helmert-matrix", dict(nr=nr, got=got.tolist()), c)
+            elif k == "azi":
+                nord, npp = c["nord"], c["npp"]
+                got = np.asarray(kl.gkl_azimuthal(nord, npp), float)
+                want = np.zeros((nord + 1, npp))
+                for i, (kind, _) in enumerate(c["rows"]):
+                    ang = 2 * np.pi * np.array(c["exps"][i], float) / npp
+                    want[i] = 1.0 if kind == "one" else np.cos(ang) if kind == "cos" else np.sin(ang) if kind == "sin" else 0.0
+                if got.shape != want.shape or not np.allclose(got, want, rtol=0, atol=1e-12):
+                    run.violation("gkl_azimuthal:harmonic-table", dict(nord=nord, npp=npp, got=got.tolist()), c)
+            elif k == "rebin":
+                (o0, o1), (n0, n1) = c["old"], c["new"]
+                a = np.arange(o0 * o1, dtype=float).reshape(o0, o1)
+                got = np.asarray(kl.rebin(a, (n0, n1)))
+                want = np.array([[a[i0, i1] for (i0, i1) in row] for row in c["idx"]])
+                if got.shape != want.shape:
+                    # the slice step is the float old/new: numpy.mgrid may produce one point more or fewer than `new`
+                    run.drift("rebin:shape-from-float-step", dict(old=[o0, o1], new=[n0, n1], got=list(got.shape)))
+                elif not np.array_equal(got, want):
+                    run.violation("rebin:index-map", dict(old=[o0, o1], new=[n0, n1], got=got.tolist(), expected=want.tolist()), c)
+            elif k == "radii":
+                nr, ri = c["nr"], c["p"] / c["q"]
+                g = np.asarray(kl.gkl_radii(ri, nr), float) ** 2
+                wg = np.array([a_ / b_ for a_, b_ in c["gkl"]])
+                ra = np.asarray(kl.radii(nr, 5, ri), float)
+                wr = np.array([a_ / b_ for a_, b_ in c["rad"]])
+                if g.shape != wg.shape or not np.allclose(g, wg, rtol=1e-13, atol=1e-15):
+                    run.violation("gkl_radii:r-squared", dict(nr=nr, ri=ri, got=g.tolist(), expected=wg.tolist()), c)
+                if ra.shape != (nr, 5) or not np.allclose(ra ** 2, wr[:, None] * np.ones((1, 5)), rtol=1e-13, atol=1e-15):
+                    run.violation("radii:r-squared-replicated-over-azimuth", dict(nr=nr, ri=ri, got=ra.tolist()), c)
+                ph = np.asarray(kl.polang(ra), float)
+                if ph.shape != (nr, 5) or not np.allclose(ph, (np.arange(5) / 5 * 2 * np.pi)[None, :] * np.ones((nr, 1)), rtol=0, atol=1e-14):
+                    run.violation("polang:azimuth-replicated-over-radius", dict(nr=nr, got=ph.tolist()), c)
     run.aux["cases_by_kind"] = kinds
-    run.bounds = dict(cfg="Growth.cfg")
+    run.bounds = dict(cfg="Growth.cfg", kl_cfg="GrowthKL.cfg")
     run.assumptions.append("specification growth beyond the listed properties; not a claimed check")
 
 
